@@ -5,7 +5,7 @@ VERIF = os.path.dirname(os.path.dirname(os.path.abspath(__file__)))
 CHECKS = {
  "C01": ("model_checking", "2", "TLC model of Manager.tla + replay of every generated transition on the real Manager (contents, definitions, knob state after each call)",
          "Manager.tla (history-free reference machine) is trusted; small universes (4-6 leaves), depth 2 exhaustive + simulated fans quick, depth 3 + 10 thorough"),
- "C02": ("model_checking", "2", "TLC model + replay observing the ordered Task.run calls: permutation of the spec's Triggered set and linear extension of Produces, under several hash seeds",
+ "C02": ("model_checking", "2", "TLC model + replay observing the ordered Task.run calls: permutation of the spec's Triggered set and linear extension of Produces, under several hash seeds; Toposort.tla (sorting.py transcribed; TLC checks reverse post-order of every acyclic graph over 3-4 vertices is topological and lists exactly the reachable set) with every finished run executed on the real toposort()",
          "order legality is judged by the spec's Produces relation emitted with each transition; structural-cycle steps are a recorded known finding"),
  "C03": ("model_checking", "2", "TLC model + replay comparing index supports, _expr/_tasks/_find_dependant_targets, verify() and a fresh manager with the spec's derived indices after every step",
          "supports only (not reference counts); derived indices are computed by the spec from the surviving definitions"),
@@ -30,7 +30,7 @@ CHECKS = {
  "C14": ("model_checking", "5", "TableHeap.tla: heap of live tables under every derivation (rows / cols / cols[expr] / + / *k / concatenate / _copy / _t) and assignment; after every step ALL live tables are compared with the value-semantics specification (rectangular, column list, scalars, cells), so a derivation that damages its source is seen",
          "roots of 0..3 rows, <= 3-5 live tables, depth 2-3 exhaustive + simulated depth 6-9; cells of columns that may share an in-place assigned array are Unknown; two dtype instantiations"),
  "C09": ("model_checking", "6", "OptProto.tla (step/solve/reload/tag/clear_log/enable/disable protocol over an abstract solver and an action raising at any evaluation) explored exhaustively over the design environments of MC_OptProto.tla for C09_ok / C09_restore, and bound by OptProtoTrace.tla (for every recorded call TLC searches the protocol's micro-steps for a path to the logged state; environment measured by the oracle); Optimizer.tla trace specification: solve() calls recorded on real Optimize objects (TLC-enumerated call sequences x generated merit-function families x fault positions) must satisfy the named clauses: normal return => matched (independent re-evaluation), failure + restore_if_fail => iteration-0 knobs and flags",
-         "measurements (tolerances, penalties, ulp distances) come from a harness oracle; TLC decides the clauses on their integer abstractions; 400 problems quick / 2000 thorough; design model <= 2 calls / 1 fault quick, <= 3 calls / 2 faults + reachability probes thorough"),
+         "measurements (tolerances, penalties, ulp distances) come from a harness oracle; TLC decides the clauses on their integer abstractions; 400 problems quick / 2000 thorough; design model <= 2 calls / 1 fault quick, <= 2 calls / 2 faults + reachability probes + liveness thorough"),
  "C10": ("model_checking", "6", "OptProto.tla design exploration (C10_inlim / C10_flags / C10_fixed) and trace binding OptProtoTrace.tla as for C09; Optimizer.tla trace specification: every logged row within the closed limits, Jacobian steps bounded by max_step (ppm ratios), disabled knobs bit-identical, temporarily disabled flags active again, twin problems prove a disabled target has no influence, calls accept their documented arguments",
          "as C09; unit weights exact, other weights 4 ulp / 20 ppm"),
  "C15": ("model_checking", "6", "OptProto.tla design exploration (C15_best / C15_reload / C15_last) and trace binding OptProtoTrace.tla as for C09; Optimizer.tla trace specification: reload(i) restores knobs (ulp) and flags and reproduces the row's penalty and targets; every logged row reproducible by the oracle; step(take_best) ends within tolerance or on the minimum-penalty row; the log stays rectangular after failures",
